@@ -122,6 +122,10 @@ func (c *Compiler) compileTryStmt(node *parser.TryStmt) error {
 			c.emit(node.Catch, OpNull)
 			symbol, exists := c.symbolTable.DefineLocal(node.Catch.Ident.Name)
 			if exists {
+				if symbol.Constant {
+					return c.errorf(node.Catch, "assignment to constant variable %q",
+						node.Catch.Ident.Name)
+				}
 				c.emit(node, OpSetLocal, symbol.Index)
 			} else {
 				c.emit(node, OpDefineLocal, symbol.Index)
@@ -159,6 +163,10 @@ func (c *Compiler) compileCatchStmt(node *parser.CatchStmt) error {
 	if node.Ident != nil {
 		symbol, exists := c.symbolTable.DefineLocal(node.Ident.Name)
 		if exists {
+			if symbol.Constant {
+				return c.errorf(node, "assignment to constant variable %q",
+					node.Ident.Name)
+			}
 			c.emit(node, OpSetLocal, symbol.Index)
 		} else {
 			c.emit(node, OpDefineLocal, symbol.Index)
